@@ -21,6 +21,8 @@ func checkC19(c *Ctx) {
 	c.Rule("C19-R3", "guarded wScreen state (size, cells, flags, fallback map, the JS grid) is accessed only with the mutex held; no blocking event post while holding it")
 	c.Rule("C19-R4", "mouse handlers are installed only under the matching MouseFlags test, button-less moves are dropped unless motion is enabled")
 	c.Rule("C19-R5", "the JS drawCell call is dominated by the Dirty test and paired with SetDirty(false); palette table for the 16 basic colours equals the xterm values")
+	c.Rule("C19-R6", "the remembered mouse and paste modes are stored only by the togglers, never by anything reachable from Suspend/Resume/Fini; Resume re-applies both from the remembered fields")
+	c.Expect("C19-R6", 4)
 	c.Expect("C19-R1", 2)
 	c.Expect("C19-R2", 20)
 	c.Expect("C19-R3", 10)
@@ -126,6 +128,20 @@ func checkC19(c *Ctx) {
 		}
 	}
 	checkC19Mouse(c, p)
+	checkRememberedModes(c, p, "C19-R6", "wScreen", []string{"mouseFlags", "pasteEnabled"}, []string{"Suspend", "Resume", "Fini"})
+	if rs := p.Fn("tcell:(*wScreen).Resume"); rs != nil {
+		for _, ra := range [][2]string{{"enableMouse", "mouseFlags"}, {"enablePasting", "pasteEnabled"}} {
+			ok := false
+			for _, call := range callsIn(rs, func(n string, _ *ssa.CallCommon) bool { return strings.HasSuffix(n, "wScreen)."+ra[0]) }) {
+				if ref, _, isF := loadedField(callCommon(call).Args[1]); isF && ref.Name == ra[1] {
+					ok = true
+				}
+			}
+			c.Check(ok, "C19-R6", "Resume:reapplies-"+ra[1], p.pos(rs.Pos()), ra[0]+"(t."+ra[1]+") on Resume")
+		}
+	} else {
+		c.Undecided("C19-R6", "(*wScreen).Resume", "-", "not found")
+	}
 	checkC19Draw(c, p)
 }
 
